@@ -16,6 +16,7 @@ structure St where
   mem     : List Tx := []                           -- unmined transactions handed to the wallet (rmempool), for `m<id>`
   hyp     : Bool := true    -- the hypotheses of C16_complete / C16_complete_resumed held for every scan so far
   tainted : Bool := false   -- an injected FilterBlocks failure fired: in-process retry is outside the model (finding)
+  stopped : Bool := false   -- the wallet was stopped mid-recovery (`how=stop`, `halt=1`) and is not loaded
 
 def noInvalid : BranchId → List Nat := fun _ => []
 
@@ -68,6 +69,63 @@ def showState (s : St) (st : State) : String :=
 /-- persistent part, for the "result does not depend on where the run was interrupted" self-check -/
 def persistEq (s : St) (a b : State) : Bool := showState s a == showState s b
 
+/-- `rrecover` / `rrestart`: one start-up sync of the wallet whose database holds `b0` (window already set) over the
+    blocks above `s.done`.  `fresh` = the wallet was just created (birthday block not verified: an in-process retry of
+    `syncWithChain` locates the birthday block again, resets the sync point to it and re-scans from there; a
+    restarted wallet retries from its sync point).  Interruption options (same validation as the Go runner):
+    `lockat=<height> how=lock|timeout|stop`, `failat=<n> halt=1`. -/
+def syncOp (s : St) (fresh : Bool) (b0 : State) (w : Nat) (rest : List String) : St × String :=
+  let failat := (natOf rest "failat").getD 0
+  let lockat := (natOf rest "lockat").getD 0
+  let how := kv rest "how"
+  let halt := kv rest "halt"
+  let tip := s.blocks.length
+  let okHalt := match halt with
+    | none => true
+    | some h => h == "1" && failat != 0
+  let okLock :=
+    if lockat == 0 then how.isNone
+    else failat == 0 && (how == some "lock" || how == some "timeout" || (how == some "stop" && s.done < lockat && lockat < tip))
+  if !(okHalt && okLock) then (s, "bad-op") else
+  let new := s.blocks.drop s.done
+  let run := fun (start : State) (blks : List (Nat × Block)) (cuts : Nat → Bool) =>
+    recoverChain noInvalid s.batch (blks.length + 1) (resurrect noInvalid start) blks cuts 0
+  -- the theorems' hypotheses for the blocks `s.done+1 .. upTo` scanned with window `w`
+  let hypUpTo := fun (upTo : Nat) =>
+    if upTo == s.done then s.hyp else
+    let c := s.blocks.take upTo
+    if fresh then checkWF s.scopes noInvalid c && checkLA w s.scopes c
+    else s.hyp && checkWF s.scopes noInvalid c && checkLAFrom w s.scopes s.done c
+  -- `strict`: the persistent result must not depend on where the run was cut (self check of the model).  Not demanded
+  -- of a re-scan of committed blocks outside the theorems' hypotheses (a payment beyond the window missed by the first
+  -- pass is found by the second, but `addRelevantTx` skips the already recorded transaction: the output is watched in
+  -- memory only, so a Resurrect in between makes a difference — the real wallet agrees with the uncut model run)
+  let finish := fun (strict : Bool) (st st' : State) =>
+    if !strict || persistEq s st st' then
+      let hyp := hypUpTo tip
+      ({ s with rs := some st, done := tip, hyp := hyp, stopped := false }, showState s st ++ s!" hyp={if hyp then 1 else 0}")
+    else (s, "model-cuts-differ")
+  if s.done < lockat && lockat < tip then
+    -- the quit flag is seen before block lockat+1 is fetched: the batches completed by then are on disk
+    let n := committedAt s.batch (lockat - s.done)
+    let st1 := recoverInterrupted noInvalid s.batch (resurrect noInvalid b0) new (fun _ => false) (lockat - s.done)
+    let st1' := recoverInterrupted noInvalid s.batch (resurrect noInvalid b0) new (fun _ => true) (lockat - s.done)
+    if how == some "stop" then
+      ({ s with rs := some st1, done := s.done + n, hyp := hypUpTo (s.done + n), stopped := true }, "interrupted-and-stopped")
+    else
+      -- lock / unlock timeout: syncWithChain fails, waitForSync retries it in-process (Resurrect from the database)
+      let again := if fresh then s.blocks else new.drop n
+      finish (!(fresh && n > 0) || hypUpTo tip) (run st1 again (fun _ => false)) (run st1' again (fun _ => true))
+  else
+  match (if halt.isSome then recoverChainFail noInvalid s.batch (b0.calls + failat) (new.length + 1) (resurrect noInvalid b0) new 0 else none) with
+  | some (st1, n) =>
+    -- the failing batch is rolled back, the wallet is stopped before any in-process retry
+    ({ s with rs := some st1, done := s.done + n, hyp := hypUpTo (s.done + n), stopped := true }, "failed-and-stopped")
+  | none =>
+    let st := run b0 new (fun _ => false)
+    if failat != 0 && failat ≤ st.calls - b0.calls then ({ s with tainted := true }, "retried-after-failure")
+    else finish true st (run b0 new (fun _ => true))
+
 def step (s : St) (line : String) : St × String :=
   let t := words line
   if s.tainted && t.head? != some "rinit" && (t.head?.map (·.startsWith "r")).getD false then (s, "tainted") else
@@ -100,7 +158,7 @@ def step (s : St) (line : String) : St × String :=
   | ["bst"] => (s, showBranch s.br)
   | "rinit" :: rest =>
     match (kv rest "scopes").bind natList?, natOf rest "batch" with
-    | some scopes, some batch => ({ s with scopes := scopes, blocks := [], done := 0, rs := none, batch := batch, tainted := false, hyp := true, mem := [] }, "ok")
+    | some scopes, some batch => ({ s with scopes := scopes, blocks := [], done := 0, rs := none, batch := batch, tainted := false, hyp := true, mem := [], stopped := false }, "ok")
     | _, _ => (s, "bad-op")
   | "rblk" :: rest =>
     -- `m<id>` = the unmined transaction <id> handed to the wallet earlier (rmempool) is mined in this block
@@ -111,7 +169,7 @@ def step (s : St) (line : String) : St × String :=
     | _ => (s, "bad-op")
   | "rlease" :: rest | "rrelease" :: rest =>
     let knownTx := fun (id : Nat) => (s.blocks.any (fun hb => hb.2.any (fun t => t.id == id))) || s.mem.any (fun t => t.id == id)
-    match s.rs, (kv rest "op").map (fun x => x.splitOn ".") with
+    match (if s.stopped then none else s.rs), (kv rest "op").map (fun x => x.splitOn ".") with
     | some st, some [a, b] =>
       match a.toNat?, b.toNat? with
       | some a, some b =>
@@ -127,7 +185,7 @@ def step (s : St) (line : String) : St × String :=
       | _, _ => (s, "bad-op")
     | _, _ => (s, "bad-op")
   | "rmempool" :: rest =>
-    match s.rs, (kv rest "tx").bind parseTx with
+    match (if s.stopped then none else s.rs), (kv rest "tx").bind parseTx with
     | some st, some tx =>
       if tx.outs.any (fun o => o.key.isSome) then (s, "bad-op") else
       let st' := addUnmined st tx
@@ -137,32 +195,14 @@ def step (s : St) (line : String) : St × String :=
     match natOf rest "w" with
     | some w =>
       if s.rs.isSome then (s, "bad-op") else
-      let st := recover noInvalid w s.batch s.scopes s.blocks (fun _ => false)
-      let st' := recover noInvalid w s.batch s.scopes s.blocks (fun _ => true)
-      let failat := (natOf rest "failat").getD 0
-      if failat != 0 && failat ≤ st.calls then ({ s with tainted := true }, "retried-after-failure")
-      else if persistEq s st st' then
-        -- the theorem's hypotheses, evaluated on this chain (the Go oracle evaluates its own version: `hyp=` must agree)
-        let hyp := checkWF s.scopes noInvalid s.blocks && checkLA w s.scopes s.blocks
-        ({ s with rs := some st, done := s.blocks.length, hyp := hyp }, showState s st ++ s!" hyp={if hyp then 1 else 0}")
-      else (s, "model-cuts-differ")
+      syncOp s true (State.init w s.scopes) w rest
     | none => (s, "bad-op")
   | "rrestart" :: rest =>
     match natOf rest "w", s.rs with
-    | some w, some st0 =>
-      let st0 := { st0 with window := w }
-      let new := s.blocks.drop s.done
-      let run := fun (cuts : Nat → Bool) => recoverChain noInvalid s.batch (new.length + 1) (resurrect noInvalid st0) new cuts 0
-      let st := run (fun _ => false)
-      let failat := (natOf rest "failat").getD 0
-      if failat != 0 && failat ≤ st.calls - st0.calls then ({ s with tainted := true }, "retried-after-failure")
-      else if persistEq s st (run (fun _ => true)) then
-        let hyp := s.hyp && checkWF s.scopes noInvalid s.blocks && checkLAFrom w s.scopes s.done s.blocks
-        ({ s with rs := some st, done := s.blocks.length, hyp := hyp }, showState s st ++ s!" hyp={if hyp then 1 else 0}")
-      else (s, "model-cuts-differ")
+    | some w, some st0 => syncOp s false { st0 with window := w } w rest
     | _, _ => (s, "bad-op")
   | ["rstate"] =>
-    match s.rs with
+    match (if s.stopped then none else s.rs) with
     | some st => (s, showState s st)
     | none => (s, "bad-op")
   | "bday" :: rest =>
